@@ -65,8 +65,9 @@ struct C16 : vf::Engine {
             else if (w < 29) o = vf::mkop("setu").set("seed", (long)(r.next() >> 16));
             else if (w < 43) o = vf::mkop("param").set("e", (int)r.below(ne)).setr("f", r.pick(std::vector<double>{1.5, 2.0, 3.0, 0.4, 0.0})).set("which", (int)r.below(3));
             else if (w < 50) o = vf::mkop("enable").set("e", (int)r.below(ne)).set("on", (int)r.below(2));
-            else if (w < 52) o = vf::mkop("cenable").set("c", (int)r.below(3)).set("on", (int)r.below(2));
-            else if (w < 54) o = vf::mkop("menable").set("c", (int)r.below(3)).set("on", (int)r.below(2));
+            else if (w < 51) o = vf::mkop("cenable").set("c", (int)r.below(3)).set("on", (int)r.below(2));
+            else if (w < 52) o = vf::mkop("menable").set("c", (int)r.below(3)).set("on", (int)r.below(2));
+            else if (w < 54) o = vf::mkop("meas").set("what", (int)r.below(3)).setr("v", r.uni(-2, 2));
             else if (w < 59) o = vf::mkop("lock").set("b", (int)r.below(nb)).set("level", (int)r.below(4));
             else if (w < 65) o = vf::mkop("grav").set("what", (int)r.below(4)).set("b", (int)r.below(nb)).setr("v", r.chance(0.3) ? 0.0 : r.uni(0, 20));   // exactly zero gravity is a special case in Force::Gravity
             else if (w < 68) o = vf::mkop("euler").set("on", (int)r.below(2));
@@ -84,6 +85,8 @@ struct C16 : vf::Engine {
     struct Sys {
         MultibodySystem sys; SimbodyMatterSubsystem matter; GeneralForceSubsystem forces; Force::Gravity gravity;
         std::vector<MobilizedBody> mob; std::vector<Elem> elems; std::vector<Constraint> cons; std::vector<Motion> motions; ThrowCtl tc;
+        // measures with state behind them: an Integrate (a z variable) and a Variable (a discrete variable), each with a consumer
+        std::unique_ptr<Measure::Integrate> mInt; std::unique_ptr<Measure::Variable> mVar; std::vector<Measure> mAll;
         Sys() : matter(sys), forces(sys), gravity(forces, matter, -YAxis, 9.8) {}
     };
 
@@ -143,6 +146,11 @@ struct C16 : vf::Engine {
             }
         }
         addWitnesses(S);
+        { Subsystem& sub = S.sys.updDefaultSubsystem();
+          S.mInt.reset(new Measure::Integrate(sub, Measure::Sinusoid(sub, 1.5, 2.0, 0.3), Measure::Constant(sub, 0.25)));
+          S.mVar.reset(new Measure::Variable(sub, Stage::Position, 0.75));
+          S.mAll.push_back(*S.mInt); S.mAll.push_back(*S.mVar);
+          S.mAll.push_back(Measure::Plus(sub, *S.mInt, *S.mVar)); S.mAll.push_back(Measure::Scale(sub, 3.0, *S.mInt)); S.mAll.push_back(Measure::Minus(sub, Measure::Time(sub), *S.mVar)); }
     }
 
     // everything computed from a realized State, as one flat vector
@@ -173,6 +181,10 @@ struct C16 : vf::Engine {
         { const Vector& qd = s.getQDot(); for (int i = 0; i < qd.size(); ++i) put(qd[i], "qdot", i); const Vector& qdd = s.getQDotDot(); for (int i = 0; i < qdd.size(); ++i) put(qdd[i], "qdotdot", i); }
         for (auto& mo : S.motions) put(mo.isDisabled(s) ? 0 : 1, "motionEnabled", 0);
         Vector_<SpatialVec> reac; S.matter.calcMobilizerReactionForces(s, reac); for (int b = 0; b < reac.size(); ++b) for (int a = 0; a < 2; ++a) for (int i = 0; i < 3; ++i) put(reac[b][a][i], "reactionForce", b);
+        // measures last: they have listed findings, which must not hide a difference in anything else
+        { static const char* MN[] = {"measure:Integrate", "measure:Variable", "measure:Plus(Integrate,Variable)", "measure:Scale(Integrate)", "measure:Minus(Time,Variable)"};
+          for (size_t i = 0; i < S.mAll.size(); ++i) put(S.mAll[i].getValue(s), MN[i < 5 ? i : 4], 0); }
+
     }
 
     // a fresh State given the same values through the public setters, in one canonical order
@@ -192,6 +204,7 @@ struct C16 : vf::Engine {
         }
         for (auto& c : S.cons) { if (c.isDisabled(s)) c.disable(f); else c.enable(f); }
         for (auto& mo : S.motions) { if (mo.isDisabled(s)) mo.disable(f); else mo.enable(f); }
+        S.mVar->setValue(f, S.mVar->getValue(s));
         for (auto& m : S.mob) if (!m.isGround()) { Motion::Level lv = m.getLockLevel(s); if (lv == Motion::NoLevel) m.unlock(f); else m.lockAt(f, m.getLockValueAsVector(s), lv); }
         // lockAt() itself writes q and u, so the continuous variables are given last
         f.setTime(s.getTime()); f.setQ(s.getQ()); f.setU(s.getU()); if (s.getNZ()) f.setZ(s.getZ());
@@ -226,12 +239,12 @@ struct C16 : vf::Engine {
                         double sc = std::max(std::abs(a[i]), std::abs(b[i]));
                         if (!(std::abs(a[i] - b[i]) <= 1e-9 * sc + 1e-10) && !(std::isnan(a[i]) && std::isnan(b[i]))) {
                             std::string q = names[i].substr(0, names[i].find('['));
-                            res.fail("stale-result", "quantity=" + q + " lastchange=" + lastMod.substr(0, lastMod.find(' ')), names[i] + " = " + S_(a[i]) + " in the State reached by the history but " + S_(b[i]) + " in a fresh State with the same values; last modification: " + lastMod + " " + where);
+                            res.fail("stale-result", q.rfind("measure:", 0) == 0 ? "quantity=" + q : "quantity=" + q + " lastchange=" + lastMod.substr(0, lastMod.find(' ')), names[i] + " = " + S_(a[i]) + " in the State reached by the history but " + S_(b[i]) + " in a fresh State with the same values; last modification: " + lastMod + " " + where);
                             break; }
                         double sc2 = std::max(std::abs(a[i]), std::abs(cc[i]));
                         if (!(std::abs(a[i] - cc[i]) <= 1e-9 * sc2 + 1e-10) && !(std::isnan(a[i]) && std::isnan(cc[i]))) {
                             std::string q = names[i].substr(0, names[i].find('['));
-                            res.fail("stale-result-vs-copy", "quantity=" + q + " lastchange=" + lastMod.substr(0, lastMod.find(' ')), names[i] + " = " + S_(a[i]) + " in the State reached by the history but " + S_(cc[i]) + " in a copy of it; last modification: " + lastMod + " " + where);
+                            res.fail("stale-result-vs-copy", q.rfind("measure:", 0) == 0 ? "quantity=" + q : "quantity=" + q + " lastchange=" + lastMod.substr(0, lastMod.find(' ')), names[i] + " = " + S_(a[i]) + " in the State reached by the history but " + S_(cc[i]) + " in a copy of it; last modification: " + lastMod + " " + where);
                             break; }
                     }
                 } catch (const std::exception& e) { res.fail("oracle-exception", "exception", std::string(e.what()) + " " + where); }
@@ -263,6 +276,10 @@ struct C16 : vf::Engine {
                 else if (op.kind == "enable") { if (!S.elems.empty()) { Elem& e = S.elems[op.num("e", 0) % S.elems.size()]; if (op.num("on", 1)) e.f.enable(s); else e.f.disable(s); modified("enable-flag force " + e.kind); if (before >= Stage::Dynamics) ++probeEnableAfterRealize; } }
                 else if (op.kind == "cenable") { if (!S.cons.empty()) { Constraint& c = S.cons[op.num("c", 0) % S.cons.size()]; if (op.num("on", 1)) c.enable(s); else c.disable(s); modified("enable-flag constraint"); } }
                 else if (op.kind == "menable") { if (!S.motions.empty()) { Motion& mo = S.motions[op.num("c", 0) % S.motions.size()]; if (op.num("on", 1)) mo.enable(s); else mo.disable(s); modified("enable-flag motion"); } }
+                else if (op.kind == "meas") { int what = (int)op.num("what", 0) % 3; double v = op.real("v", 1);
+                    if (what == 0) { S.mInt->setValue(s, v); modified("z (Measure::Integrate::setValue)"); }
+                    else if (what == 1) { S.mVar->setValue(s, v); modified("discrete variable (Measure::Variable::setValue)"); }
+                    else { S.sys.realize(s, Stage::Time); for (auto& m : S.mAll) if (m.getDependsOnStage() <= Stage::Time) (void)m.getValue(s); } }      // an intermediate query that fills the measures' caches
                 else if (op.kind == "lock") { MobilizedBody& m = S.mob[1 + op.num("b", 0) % nb]; int lv = (int)op.num("level", 0) % 4;
                     if (lv == 0) m.unlock(s); else if (lv == 1) m.lock(s, Motion::Position); else if (lv == 2) m.lock(s, Motion::Velocity); else m.lockAt(s, Vector(m.getNumU(s), 0.25), Motion::Acceleration);
                     modified("lock"); }
